@@ -988,6 +988,35 @@ func checkClosedSentinelMaps(c *core.Ctx) {
 				n++
 				fname := k.named.Obj().Name() + "." + k.named.Underlying().(*types.Struct).Field(k.field).Name()
 				ok2 := guardedBy(b, func(cond ssa.Value) int {
+					// a one-level predicate method of the same receiver that returns the nil test
+					if call, isCall := cond.(*ssa.Call); isCall {
+						sc := call.Common().StaticCallee()
+						if sc != nil && len(sc.Params) >= 1 && len(call.Common().Args) >= 1 && sameValue(call.Common().Args[0], base) {
+							for _, hb := range sc.Blocks {
+								for _, hin := range hb.Instrs {
+									ret, isRet := hin.(*ssa.Return)
+									if !isRet || len(ret.Results) != 1 {
+										continue
+									}
+									hbo, isB := ret.Results[0].(*ssa.BinOp)
+									if !isB || (hbo.Op != token.NEQ && hbo.Op != token.EQL) {
+										continue
+									}
+									for _, pair := range [][2]ssa.Value{{hbo.X, hbo.Y}, {hbo.Y, hbo.X}} {
+										kk, bb, isF := fieldOf(pair[0])
+										cst, isC := pair[1].(*ssa.Const)
+										if isF && isC && cst.IsNil() && kk == k && bb == sc.Params[0] {
+											if hbo.Op == token.NEQ {
+												return 1
+											}
+											return -1
+										}
+									}
+								}
+							}
+						}
+						return 0
+					}
 					bo, isB := cond.(*ssa.BinOp)
 					if !isB || (bo.Op != token.NEQ && bo.Op != token.EQL) {
 						return 0
